@@ -4,7 +4,9 @@
    drop point and cancellation point, with any number of callers. *)
 From Coq Require Import List NArith Lia Bool Arith.
 From FFS Require Import WsClient.Model WsClient.Spec WsClient.ProofsHttp WsClient.ProofsWsBase
-  WsClient.ProofsWsPairing WsClient.ProofsWsReconnect WsClient.ProofsWsResub WsClient.ProofsWsRouting.
+  WsClient.ProofsWsPairing WsClient.ProofsWsReconnect WsClient.ProofsWsResub WsClient.ProofsWsRouting
+  WsClient.ProofsHttpPairing WsClient.ProofsWsResubExact
+  WsClient.ProofsWsRoutingGen WsClient.ProofsWsRoutingGenThm.
 Import ListNotations.
 
 (* 1. HTTP: with a limit configured, the number of requests outstanding at the backend never exceeds
@@ -45,6 +47,75 @@ Example C18_http_nonvacuous :
             /\ h_outstanding s = 1%nat /\ h_sent s = [2; 1]%N
             /\ h_pc s 0%nat = HDone {| ho_err := false; ho_id := 7; ho_res := Some 42%N; ho_code := 0 |}.
 Proof. eexists. split; [vm_compute; reflexivity|]. vm_compute. auto. Qed.
+
+(* 3b. HTTP, pairing (not only the id).  [hexchanges limit evs] is the backend's view of the history: the
+       exchanges it completed, as (id on the request frame, caller whose HTTP exchange it was, answer), a pure
+       function of the event list.  Two callers never hold the same backend id at the same time ... *)
+Theorem C18_http_ids_distinct_across_callers :
+  forall (limit : N) (evs : list hev) (s : hstate),
+    hrun evs (hinit limit) = Some s ->
+    forall c1 c2 i, beid (h_pc s c1) = Some i -> beid (h_pc s c2) = Some i -> c1 = c2.
+Proof. exact http_ids_distinct_across_callers. Qed.
+Print Assumptions C18_http_ids_distinct_across_callers.
+
+(* ... in the whole history no backend id was answered twice or to two callers, no caller had two exchanges,
+   every answered id is one the allocator handed out ... *)
+Theorem C18_http_exchange_log_unique :
+  forall (limit : N) (evs : list hev) (s : hstate),
+    hrun evs (hinit limit) = Some s ->
+    let xl := hexchanges limit evs in
+    NoDup (map (fun x => fst (fst x)) xl) /\
+    NoDup (map (fun x => snd (fst x)) xl) /\
+    (forall id c r, In (id, c, r) xl -> In id (h_sent s)).
+Proof. exact http_exchange_log_unique. Qed.
+Print Assumptions C18_http_exchange_log_unique.
+
+(* ... and what a caller gets back is the classification, under ITS OWN original id, of the backend's answer
+   on the one exchange that carried the id allocated to THIS caller (whatever id that answer echoed) - or the
+   internal error, when it was cancelled while waiting for a slot and never sent anything. *)
+Theorem C18_http_reply_paired :
+  forall (limit : N) (evs : list hev) (s : hstate) (c : nat) (o : hout),
+    hrun evs (hinit limit) = Some s ->
+    (h_pc s c = HDone o \/ exists b, h_pc s c = HRet b o) ->
+    let xl := hexchanges limit evs in
+    (exists id r, In (id, c, r) xl /\ o = hclassify (h_orig s c) r) \/
+    ((forall id r, ~ In (id, c, r) xl) /\ o = err_out (h_orig s c) codeInternal).
+Proof. exact http_reply_paired. Qed.
+Print Assumptions C18_http_reply_paired.
+
+(* while a request is outstanding its id has been answered to nobody; once answered, the answer is logged
+   under that id and that caller *)
+Theorem C18_http_got_paired :
+  forall (limit : N) (evs : list hev) (s : hstate) (c : nat) (b : bool) (id : N),
+    hrun evs (hinit limit) = Some s ->
+    let xl := hexchanges limit evs in
+    (forall r, h_pc s c = HGot b id r -> In (id, c, r) xl) /\
+    (h_pc s c = HSent b id ->
+       (forall c' r, ~ In (id, c', r) xl) /\ (forall id' r, ~ In (id', c, r) xl)).
+Proof. exact http_got_paired. Qed.
+Print Assumptions C18_http_got_paired.
+
+(* the "original id" of 3/3b is the id the caller passed in (a caller starts once) *)
+Theorem C18_http_orig_is_callers :
+  forall (limit : N) (evs : list hev) (s : hstate) (c : nat) (orig : N),
+    hrun evs (hinit limit) = Some s -> In (HEStart c orig) evs -> h_orig s c = orig.
+Proof. exact http_orig_is_callers. Qed.
+Print Assumptions C18_http_orig_is_callers.
+
+(* non-vacuity of 3b: limit 1, two callers; the backend answers caller 1 with an error that echoes caller 0's
+   backend id: each still gets its own answer under its own id, the exchange log pairs ids and callers *)
+Example C18_http_pairing_nonvacuous :
+  let evs := [HEStart 0 7; HEStart 1 9; HEAcquire 0; HEAlloc 0; HEReply 0 (HRResult 555 42);
+              HERestore 0; HERelease 0; HEAcquire 1; HEAlloc 1; HEReply 1 (HRRpcError 1 33);
+              HERestore 1; HERelease 1]%N in
+  match hrun evs (hinit 1) with
+  | Some s =>
+      h_pc s 0 = HDone {| ho_err := false; ho_id := 7; ho_res := Some 42%N; ho_code := 0 |} /\
+      h_pc s 1 = HDone {| ho_err := true; ho_id := 9; ho_res := None; ho_code := 33 |}
+  | None => False
+  end /\
+  hexchanges 1 evs = [(2%N, 1, HRRpcError 1 33); (1%N, 0, HRResult 555 42)].
+Proof. vm_compute. repeat split; reflexivity. Qed.
 
 (* 4. WebSocket: a delivery to caller k carries the frame whose id was allocated to k's request —
       in the log of all deliveries, in k's response channel and in what CallRPC returns; ids are never
@@ -114,6 +185,58 @@ Theorem C18_ws_resubscribe_once_refuted :
 Proof. exact ws_resubscribe_once_refuted. Qed.
 Print Assumptions C18_ws_resubscribe_once_refuted.
 
+(* 6c. EXACT count, every history, no guard.  [win_at_last_clear evs s]: s was inside its Subscribe() window
+       (between addConfiguredSub and the completion of its own send) when the LAST reconnect began;
+       [dropped_since_clear evs s]: since then handleReconnect gave up (a websocket send failed) with s still
+       on its list.  Both are functions of the history (WsClient/ProofsWsResubExact.v), finer than the guards
+       of 6: per subscription and per reconnect.  The number of requests is the sum of the two indicators. *)
+Theorem C18_ws_resubscribe_exact :
+  forall evs w, wrun evs winit = Some w ->
+    forall s, In s (w_conf w) -> settled (w_spc w s) = true ->
+      sends_since_clear s (w_log w) + cnt_in s (todo (w_hpc w)) =
+        b2n (win_at_last_clear evs s) + b2n (negb (dropped_since_clear evs s)).
+Proof. exact ws_resubscribe_exact. Qed.
+Print Assumptions C18_ws_resubscribe_exact.
+
+(* 6d. ... hence, once handleReconnect is done, "exactly once" holds IFF the two circumstances coincide;
+       two requests iff only the first, none iff only the second. *)
+Theorem C18_ws_resubscribe_once_iff :
+  forall evs w, wrun evs winit = Some w -> w_hpc w = HIdle ->
+    forall s, In s (w_conf w) -> settled (w_spc w s) = true ->
+      (sends_since_clear s (w_log w) = 1 <-> win_at_last_clear evs s = dropped_since_clear evs s) /\
+      (sends_since_clear s (w_log w) = 2 <-> win_at_last_clear evs s = true /\ dropped_since_clear evs s = false) /\
+      (sends_since_clear s (w_log w) = 0 <-> win_at_last_clear evs s = false /\ dropped_since_clear evs s = true).
+Proof. exact ws_resubscribe_once_iff. Qed.
+Print Assumptions C18_ws_resubscribe_once_iff.
+
+(* 6e. the guards of 6 exclude exactly these circumstances (and more: they are global and sticky), so 6 is the
+       instance (false, false) of 6c *)
+Theorem C18_ws_resubscribe_guards :
+  forall evs w, wrun evs winit = Some w ->
+    (w_substraddle w = false -> forall s, win_at_last_clear evs s = false) /\
+    (no_rc_abort evs -> forall s, dropped_since_clear evs s = false).
+Proof. intros evs w H. split; [exact (substraddle_false_win_false evs w H)|exact (no_abort_not_dropped evs)]. Qed.
+Print Assumptions C18_ws_resubscribe_guards.
+
+(* 6f. the clause is also false without the guard no_rc_abort alone: no Subscribe() straddles anything,
+       handleReconnect gives up, the subscription is not re-requested at all *)
+Theorem C18_ws_resubscribe_once_refuted_abort :
+  exists evs w s,
+    wrun evs winit = Some w /\ w_substraddle w = false /\ In s (w_conf w) /\ settled (w_spc w s) = true /\
+    w_hpc w = HIdle /\ sends_since_clear s (w_log w) = 0.
+Proof. exact ws_resubscribe_once_refuted_abort. Qed.
+Print Assumptions C18_ws_resubscribe_once_refuted_abort.
+
+(* non-vacuity of 6c/6d: the three exceptional combinations occur - (configured&settled, handleReconnect
+   done, w_substraddle, requests, in window at last reconnect, dropped) - and the flags of 6 are broader than
+   needed (another subscription straddled an EARLIER reconnect) *)
+Example C18_ws_resub_exact_nonvacuous :
+  resub_obs resub_witness 0 = Some (true, true, true, 2, true, false) /\
+  resub_obs resub_abort_witness 0 = Some (true, true, false, 0, false, true) /\
+  resub_obs resub_both_witness 0 = Some (true, true, true, 1, true, true) /\
+  resub_obs resub_other_straddles 0 = Some (true, true, true, 1, false, false).
+Proof. vm_compute. repeat split; reflexivity. Qed.
+
 (* 7. WebSocket, routing of notifications.  In EVERY state a notification frame is dispatched by the
       abstract ownership table of Spec.v read off activeSubsBySubID: handed to [spec_route (w_act w) x]
       when x has an owner, dropped without any effect otherwise (also when it carries no usable id). *)
@@ -130,34 +253,53 @@ Print Assumptions C18_ws_notification_dispatch.
        handing a notification to has not completed its Unsubscribe; once Unsubscribe s has returned nil
        s owns no id, no notification is delivered to s afterwards in the whole history ([no_late]), and
        nothing is ever sent on / closed twice as a closed notifications channel.  PARTIAL: proved for
-       event sequences in which no reconnect begins while the receive loop is inside a frame
-       (ghost flag w_straddle: between popInflight and the completion of the frame's handling - for the
-       refutation only the hand-over of a notification matters, see 7c) nor while a Subscribe() call is between addConfiguredSub and the completion of its
-       own send (w_substraddle).  Without the first hypothesis the statement is false of the faithful
-       model (7c); without the second one see 6b. *)
+       event sequences in which no reconnect begins while the receive loop is between getActiveSub and the
+       hand-over select of a NOTIFICATION ([notif_straddle evs winit], a function of the history: some EClear
+       was taken in a state with w_rpc = RNotify) nor while a Subscribe() call is between addConfiguredSub and
+       the completion of its own send (w_substraddle).  A reconnect that begins while the receive loop is inside a
+       confirmation (popInflight .. addActiveSub) or a call reply is covered since the repair 8f787ed (the
+       invariant is stated relative to the connection generation w_gen).  Without the first hypothesis the
+       statement is false of the faithful model (7c); without the second one see 6b. *)
 Theorem C18_ws_routing_partial :
   forall evs w,
-    wrun evs winit = Some w -> w_straddle w = false -> w_substraddle w = false ->
+    wrun evs winit = Some w -> notif_straddle evs winit = false -> w_substraddle w = false ->
     (forall s x t, w_rpc w = RNotify s x t -> w_upc w s <> UDone true /\ w_upc w s <> UClosing) /\
     (forall x s, In (x, s) (w_act w) -> s_cur (w_sub w s) = Some x /\ w_upc w s = UNew) /\
     (forall s, w_upc w s = UDone true -> owns_nothing (w_act w) s) /\
     no_late (w_log w) /\
     w_panic w = false.
-Proof. exact ws_routing_partial. Qed.
+Proof. exact ws_routing_gen_partial. Qed.
 Print Assumptions C18_ws_routing_partial.
 
-(* 7c. the witness: the receive loop has looked up the owner of a notification (subscription 0) and has not
-       yet entered the select that hands it over when the connection drops; handleReconnect clears
-       currentSubID and re-requests 0; Unsubscribe therefore sends no eth_unsubscribe (nothing it has to
-       wait for the receive loop for) and closes the notifications channel; the receive loop then enters
-       the select with a send on the closed channel among its ready cases.  (The other window, between
-       popInflight and addActiveSub of a confirmation, was a genuine defect of /repo and is repaired:
-       addActiveSub checks the connection generation - Example d18c_trace_is_safe.) *)
+(* 7b'. the guard of 7b is implied by the ghost flag that guarded this theorem before (no reconnect begins
+        while the receive loop is inside ANY frame): nothing that was covered is lost *)
+Theorem C18_ws_routing_guard_narrowed :
+  forall evs w, wrun evs winit = Some w -> w_straddle w = false -> notif_straddle evs winit = false.
+Proof. intros evs w. exact (straddle_false_notif_false evs winit w). Qed.
+Print Assumptions C18_ws_routing_guard_narrowed.
+
+(* 7c. the witness (it lies in the narrowed window): the receive loop has looked up the owner of a notification
+       (subscription 0) and has not yet entered the select that hands it over when the connection drops;
+       handleReconnect clears currentSubID and re-requests 0; Unsubscribe therefore sends no eth_unsubscribe
+       (nothing it has to wait for the receive loop for) and closes the notifications channel; the receive loop
+       then enters the select with a send on the closed channel among its ready cases. *)
 Theorem C18_ws_routing_refuted :
-  exists evs w, wrun evs winit = Some w /\ w_substraddle w = false /\ w_upc w 0 = UDone true /\
-                w_panic w = true.
-Proof. exact ws_routing_refuted. Qed.
+  exists evs w, wrun evs winit = Some w /\ notif_straddle evs winit = true /\ w_substraddle w = false /\
+                w_upc w 0 = UDone true /\ w_panic w = true.
+Proof. exact ws_routing_gen_refuted. Qed.
 Print Assumptions C18_ws_routing_refuted.
+
+(* non-vacuity of the narrowing: the D18c history (confirmation popped, reconnect, addActiveSub, new confirmation,
+   Unsubscribe, notification on the old id) and a reconnect during the delivery of a call reply both have
+   w_straddle = true - excluded by the old guard - and satisfy the hypotheses of 7b *)
+Example C18_ws_routing_narrowed_nonvacuous :
+  match wrun d18c_trace winit, wrun deliver_straddle_trace winit with
+  | Some w, Some w' =>
+      w_straddle w && negb (w_substraddle w) && negb (notif_straddle d18c_trace winit) && negb (w_panic w) &&
+      w_straddle w' && negb (w_substraddle w') && negb (notif_straddle deliver_straddle_trace winit) && negb (w_panic w')
+  | _, _ => false
+  end = true.
+Proof. vm_compute. reflexivity. Qed.
 
 (* non-vacuity of 7/7b: subscription 0 is confirmed with server id 5 and receives a notification; the id
    moves to subscription 1 after a reconnect (the server reuses it); 0 is unsubscribed; a notification
